@@ -1,10 +1,86 @@
 """C10 - trade and runner accounting follows the real state of the orders."""
-import random
+import random, json
 from common import *
 import livegen, livecheck, simgen, simcheck, propcheck
 import c04
 
 PID = "C10"
+
+
+def with_limits(rng, sc):
+    """a simulation scenario with trade limits: multi-order and re-used trades (trade names from a small pool), max_trade_count,
+    max_live_trade_count, multi_order_trades per strategy"""
+    sc = json.loads(json.dumps(sc))
+    for sp in sc["strategies"]:
+        sp["max_trade"] = rng.choice([1, 2, 3, 10 ** 6]); sp["max_live"] = rng.choice([1, 1, 2, 10 ** 6]); sp["multi"] = rng.random() < 0.5
+    for ev in sc["script"]:
+        for a in ev["acts"]:
+            if a[0] == "place" and rng.random() < 0.6:
+                a[5] = dict(a[5] or {}, trade="T%d-%d-%d-%d" % (ev["s"], ev["m"], a[2], rng.randrange(3)))     # per strategy, market and selection
+    return sc
+
+
+def sim_limit_decisions(sc, io):
+    """every accept/refuse of a placement against a recount of the blotter at the start of the callback, updated by the callback's own earlier requests"""
+    res = list(propcheck.c10(sc, io))
+    snaps = {}
+    for ob in io["obs"]:
+        snaps.setdefault((ob["s"], ob["m"], ob["pt"]), ob)
+    mids = [m["id"] for m in sc["markets"]]
+    trade_of = {}        # trade name -> set of order names (to recognise the trade of a snapshot order)
+    for ev in sc["script"]:
+        for a in ev["acts"]:
+            if a[0] == "place":
+                trade_of.setdefault((ev["s"], (a[5] or {}).get("trade") or "_%s" % a[1]), set()).add("o%s" % a[1] if not str(a[1]).startswith("o") else a[1])
+    by_cb = {}
+    for r in io["requests"]:
+        by_cb.setdefault((r[0], r[1], r[2]), []).append(r)
+    for (s, mi, u), reqs in by_cb.items():
+        sp = sc["strategies"][s]
+        if sp.get("max_trade", 10 ** 6) >= 10 ** 6 and sp.get("max_live", 10 ** 6) >= 10 ** 6:
+            continue
+        pt = sc["markets"][mi]["updates"][u]["pt"]
+        ob = snaps.get((s, mids[mi], pt))
+        if ob is None:
+            continue
+        # recount per selection: trade key = the snapshot's trade id
+        trades, live = {}, {}
+        for o in ob["orders"]:
+            if o["strategy"] != s:
+                continue
+            trades.setdefault(o["sel"], set()).add(o["trade"])
+            if not o["complete"]:
+                live.setdefault(o["sel"], set()).add(o["trade"])
+        name2trade = {o["o"]: o["trade"] for o in ob["orders"]}
+        script_acts = [a for ev in sc["script"] if (ev["s"], ev["m"], ev["u"]) == (s, mi, u) for a in ev["acts"]]
+        places = [a for a in script_acts if a[0] == "place"]
+        preqs = [r for r in reqs if r[3] == "place"]
+        for a, r in zip(places, preqs):
+            sel = a[2]
+            tn = (a[5] or {}).get("trade")
+            members = trade_of.get((s, tn or "_%s" % a[1]), set())
+            tid = next((name2trade[n] for n in members if n in name2trade), "new:%s" % (tn or a[1]))
+            T, L = trades.setdefault(sel, set()), live.setdefault(sel, set())
+            why = None
+            if sp.get("multi") and tid in L:
+                why = None
+            elif (len(T) == sp["max_trade"] and tid not in T) or len(T) > sp["max_trade"]:
+                why = "max_trade_count %d reached (%d trades)" % (sp["max_trade"], len(T))
+            elif (len(L) == sp["max_live"] and tid not in L) or len(L) > sp["max_live"]:
+                why = "max_live_trade_count %d reached (%d trades with an order that is not complete)" % (sp["max_live"], len(L))
+            acc = r[5] is True
+            if r[5] not in (True, False):
+                continue          # refused / raised by something else (market closed, validation)
+            if acc and why is not None:
+                res.append(("C10-limit-exceeded-sim", "placement of %s accepted although %s" % (r[4], why), {"request": r[:6], "pt": pt}))
+            vmsg = (r[6] or {}).get("violation_msg") or "" if len(r) > 6 else ""
+            if not acc and "strategy.validate_order" not in vmsg:
+                continue          # refused by another control (market not open, order validation, exposure): not a trade-limit decision
+            if not acc and why is None:
+                res.append(("C10-locked-out-sim", "placement of %s refused although no trade limit applies: %d trades, %d live, limits max_trade %s max_live %s multi %s" % (r[4], len(T), len(L), sp["max_trade"], sp["max_live"], sp.get("multi")), {"request": r[:6], "pt": pt}))
+            if acc:
+                T.add(tid); L.add(tid); name2trade["o%s" % a[1] if not str(a[1]).startswith("o") else a[1]] = tid
+    return res
 
 
 def main():
@@ -23,6 +99,24 @@ def main():
     simcheck.run_family(ck, "simulation_histories", scs, propcheck.c10, "C10", "sim")
     scs3 = [c04.race_scenario(rng) for _ in range(600 if thorough else 150)]
     simcheck.run_family(ck, "simulation_requests_in_flight_races", scs3, propcheck.c10, "C10", "race")
+    # simulation with trade limits, multi-order and re-used trades (implementation only: the simulation model has no trade limits)
+    lscs = [with_limits(rng, simgen.gen_scenario(rng, {"kinds": ["L"], "p_manage": 0.5, "p_place": 0.7, "nstrats": [1, 2], "p_remove": 0.0})) for _ in range(400 if thorough else 100)]
+    louts = run_impl_parallel("simlib", [{"scenarios": [simgen.to_impl(x) for x in ch], "observe": "all"} for ch in chunked(lscs, 10)], timeout=3600)
+    limpl = [r for o in louts for r in o["out"]]
+    pf = []
+    for i, (sc, io) in enumerate(zip(lscs, limpl)):
+        for key, desc, det in sim_limit_decisions(sc, io):
+            pf.append((i, key, desc, det))
+    from collections import Counter
+    ck.family("simulation_trade_limits", len(lscs), len(lscs), [], sorted({i for i, *_ in pf}),
+              dist={"placements_accepted": sum(1 for io in limpl for r in io["requests"] if r[3] == "place" and r[5] is True),
+                    "placements_refused": sum(1 for io in limpl for r in io["requests"] if r[3] == "place" and r[5] is False),
+                    "limits": dict(Counter("%s/%s/%s" % (sp["max_trade"] if sp["max_trade"] < 10 ** 6 else "inf", sp["max_live"] if sp["max_live"] < 10 ** 6 else "inf", sp["multi"]) for sc in lscs for sp in sc["strategies"]))})
+    seen = set()
+    for i, key, desc, det in pf:
+        if key not in seen:
+            seen.add(key)
+            ck.fail(key, desc, {"scenario": lscs[i], "detail": det, "how": "harness/impl/simlib.py run_scenario on the real FlumineSimulation"})
     return ck.finish("live: random histories (multi-order trades, re-used trades, replacements, adoption after restart; with and without max_trade_count / max_live_trade_count / multi_order_trades / reset_seconds / place_reset_seconds and a fake clock) on the real Trade / RunnerContext / validate_order / BetfairExecution / process_current_orders, compared step by step with the Coq live model; after every step the runner contexts are compared with a recount from the blotter's orders, trade completion with the orders' completeness, and every accept/refuse decision of validate_order with the decision recomputed from the recount.  simulation: the same recount at every strategy call of whole-loop scenarios")
 
 
